@@ -69,6 +69,12 @@ def run_comb(ctx, pt):
         r = ctx.attempt(lambda: [tuple(c) for c in combink(l, p, 0)])
         ctx.eq('C20/combink', r, ('ok', list(itertools.combinations(l0, p))))
         ctx.eq('C20/combink/list-unchanged', l, l0)
+    # two enumerations requested before either is consumed (itertools.chain), over lists of different lengths
+    for (n2, p2) in ((max(1, n - 2), 1), (n + 1, min(p, n + 1)), (1, 1)):
+        l1, l2 = list(range(n)), [chr(97 + i) for i in range(n2)]
+        r = ctx.attempt(lambda: [tuple(c) for c in itertools.chain(combink(l1, p, 0), combink(l2, p2, 0))])
+        ctx.eq('C20/combink/two-enumerations-requested-before-consumption', r,
+               ('ok', list(itertools.combinations(l1, p)) + list(itertools.combinations(l2, p2))))
     # a second complete enumeration gives the same answer (internal static state is cleaned up)
     l = list(range(n))
     a = ctx.attempt(lambda: [tuple(c) for c in combink(l, p, 0)])
@@ -115,6 +121,22 @@ def judge_subset(ctx, key, items, s, res, minimal):
     ctx.ok(key + '/wrong-sum', sum(w for _, w in v) == s, (sorted(v), s))
     if minimal:
         ctx.ok(key + '/not-minimal', len(v) == need, (sorted(v), need))
+
+
+BIG = [(1 << 53) + 3, (1 << 53) + 1, (1 << 60) + 7, (1 << 64) - 1, 3]
+
+
+def pts_bigweights(tier):
+    return [tuple(c) for r in (1, 2, 3) for c in itertools.combinations(BIG, r)]
+
+
+def run_bigweights(ctx, pt):
+    """weights beyond 2^53 (not representable as floats)"""
+    items = items_of(pt)
+    targets = sorted({sum(w for _, w in c) for r in range(1, len(items) + 1) for c in itertools.combinations(items, r)} | {pt[0] + 1, pt[0] - 1})
+    for s_ in targets:
+        K = fresh_knapsack()
+        judge_subset(ctx, 'C20/exactsum/big-weights', items, s_, ctx.attempt(K.exactsum, list(items), s_), False)
 
 
 def pts_subset(tier):
@@ -219,6 +241,7 @@ def subchecks():
         Sub('combink', pts_comb, run_comb, engine='D', bound='n=1..6 (7), every 1<=p<=n, three element kinds, vs itertools.combinations; repeated enumeration'),
         Sub('subset-sum', pts_subset, run_subset, engine='D',
             bound='every item list of length 0..5 (thorough 0..6) with weights in {1,2,3,5} x every target 0..sum+1 (exactsum: 1..sum+1), each on a freshly loaded module'),
+        Sub('big-weights', pts_bigweights, run_bigweights, engine='D', bound='exactsum on every 1-3 subset of 5 weights around 2^53, 2^60, 2^64 x every reachable target and two unreachable ones (dynprog is O(target) and not run there)'),
         hsub('call-histories', systems, lambda tier: 3 if tier == 'quick' else 4,
              bound='8 exactsum/dynprog calls, 4 calls on one caller-owned list object, overwriting that list in place, scribbling on the last returned result; all histories to depth 3 (thorough 4) on one loaded module, deduplicated by the functions\' default-argument state'),
     ]
